@@ -155,7 +155,8 @@ Mechanism(F, H, G, C, n, arg, fl) ==
       importers  == IF willReload = {} THEN {} ELSE { c \in inAll : \E m \in TransImports(C, c) : Root(m) \in willReload }
       del1   == del0 \cup importers
       force1 == force0 \cup (importers \cap inFile)
-      roots  == { Root(c) : c \in { x \in force1 \cup gone : IsPkgMember(x) } }
+      gone1  == IF "del-no-propagate" \in fl THEN {} ELSE del1 \ inFile                 \* ... incl. importers without a file
+      roots  == { Root(c) : c \in { x \in force1 \cup gone1 : IsPkgMember(x) } }
       under  == { c \in inFile : Root(c) \in roots }
       del2   == del1 \cup under
       force2 == (force1 \ under) \cup { c \in under : TopFile(d2f[c].path) }
